@@ -41,13 +41,14 @@ def datasets(rng, n_random):
     out.append(('denormal-scale', np.column_stack([np.arange(1, 9) * 5e-324, np.array([3, 1, 2, 5, 4, 7, 8, 6]) * 1e-310])))
     # a tau = 0 table leaves a long-lived Frank instance at theta ~ 0.016; the NEXT table has clearly negative dependence (round 5: a solver
     # warm-started from the instance's own theta cannot cross 0)
-    out.append(('tau0-design-again', np.array([[.1, .2], [.2, .4], [.3, .1], [.4, .3]])))
     rw = np.random.RandomState(55)
-    zw = rw.multivariate_normal([0, 0], [[1, -.75], [-.75, 1]], 60)
     from scipy.stats import norm as _n3
-    out.append(('negative-after-tau0', _n3.cdf(zw)))
-    out.append(('tau0-design-third', np.array([[.15, .25], [.25, .45], [.35, .15], [.45, .35]])))
-    out.append(('positive-after-tau0', _n3.cdf(rw.multivariate_normal([0, 0], [[1, .75], [.75, 1]], 60))))
+    t0 = np.array([[.1, .2], [.2, .4], [.3, .1], [.4, .3]])
+    for k, sign in enumerate((-1, -1, 1, 1, -1, 1)):
+        # whichever side of 0 the tau = 0 fit leaves theta on (that depends on the history), one of the following tables is on the other side
+        out.append((f'tau0-design-{k + 2}', t0 + 0.05 * k))
+        out.append((f'{"negative" if sign < 0 else "positive"}-after-tau0-{k + 2}',
+                    _n3.cdf(rw.multivariate_normal([0, 0], [[1, sign * .75], [sign * .75, 1]], 60))))
     # a long table (20 000 rows) with ONE value outside [0, 1], at an odd row index, and its clean twin: the refusal may not depend on n
     rl = np.random.RandomState(77)
     zl = rl.multivariate_normal([0, 0], [[1, .6], [.6, 1]], 20000)
@@ -199,7 +200,10 @@ def calibration_why(fam, X, instance=None):
         # the library's own tau equation integrates the Debye integrand from EPSILON = 2^-23 instead of 0 (the integrand tends to 1
         # there), which shifts the calibrated tau by 4*EPSILON/theta^2 (1e-5 at theta = 0.2; the extreme case, no root at all for
         # -0.0034 < tau < 0, is finding F33 of C11).  That systematic term is allowed for; everything beyond it is a miscalibration.
-        if abs(t - tau) > 1e-6 + 1.05 * 4 * 1.1920929e-07 / th ** 2:
+        # The allowance is taken at the theta the calibration SHOULD give (tau(theta) <= |theta|/9, so |theta| >= 9 |tau|; 8.5 leaves a
+        # margin), never at the stored theta: a solver stalled next to 0 (round 5: warm start from the instance's own theta) would
+        # otherwise buy itself an unbounded allowance.
+        if abs(t - tau) > 1e-6 + 1.05 * 4 * 1.1920929e-07 / (8.5 * tau) ** 2:
             return (f'Frank theta = {th!r} has theoretical Kendall tau {t!r} (Debye function, independent quadrature), but the data tau is '
                     f'{tau!r} (difference {abs(t - tau):.3g})')
     return None
@@ -227,7 +231,7 @@ def consistent_pair(c):
         if abs(th) > 600 or abs(tau) < 0.01:
             return None                   # F14c/d, F33
         want = debye_tau(th)
-    if abs(want - tau) > 1e-6 + (1.05 * 4 * 1.1920929e-07 / th ** 2 if name == 'Frank' else 0.0):
+    if abs(want - tau) > 1e-6 + (1.05 * 4 * 1.1920929e-07 / (8.5 * tau) ** 2 if name == 'Frank' else 0.0):
         return (f'{name} passes check_fit with theta = {th!r} and tau = {tau!r}, but the Kendall tau of that theta is {want!r}: the object pairs '
                 f'the parameter of one fit with the tau of another')
     return None
